@@ -332,8 +332,12 @@ func product(x, y *DFA, acc func(a, b bool) bool) *DFA {
 func (x *DFA) Intersect(y *DFA) *DFA {
 	return product(x, y, func(a, b bool) bool { return a && b }).Minimize()
 }
-func (x *DFA) Union(y *DFA) *DFA { return product(x, y, func(a, b bool) bool { return a || b }).Minimize() }
-func (x *DFA) Minus(y *DFA) *DFA { return product(x, y, func(a, b bool) bool { return a && !b }).Minimize() }
+func (x *DFA) Union(y *DFA) *DFA {
+	return product(x, y, func(a, b bool) bool { return a || b }).Minimize()
+}
+func (x *DFA) Minus(y *DFA) *DFA {
+	return product(x, y, func(a, b bool) bool { return a && !b }).Minimize()
+}
 
 // Concat: x followed by y.
 func (x *DFA) Concat(y *DFA) *DFA {
